@@ -78,6 +78,20 @@ def ivSumIn (m : Mod → Rat) (ivs : Option (List Interval)) (lo hi : Int) : Rat
   | none => 0
   | some L => ((L.filter fun iv => decide (lo ≤ iv.start ∧ iv.stop ≤ hi)).map fun iv => modSum m iv.mods).sum
 
+/-- well-formed intervals: non-empty and inside the sequence -/
+def IntervalsOK (a : Annotation) : Prop :=
+  ∀ L, a.intervals = some L → ∀ iv ∈ L, 0 ≤ iv.start ∧ iv.start < iv.stop ∧ iv.stop ≤ (a.seq.length : Int)
+
+/-- the interval wraps around the end of the sequence after a rotation by `eff` (`0 ≤ eff < n`): the rotation point falls
+strictly inside it, so its residues land at both ends of the new sequence -/
+def wraps (eff : Int) (iv : Interval) : Prop := iv.start < eff ∧ eff < iv.stop
+
+instance (eff : Int) (iv : Interval) : Decidable (wraps eff iv) := by unfold wraps; infer_instance
+
+/-- no interval of `a` wraps when `a` is shifted by `k` (decidable for concrete `a`, `k`) -/
+def NoWrap (a : Annotation) (k : Int) : Prop :=
+  ∀ L, a.intervals = some L → ∀ iv ∈ L, ¬ wraps (k % (a.seq.length : Int)) iv
+
 /-! ### concrete annotations used by the non-vacuity examples -/
 
 /-- `{100}[Ac]-P[Ph]E(PT)[1]... ` : labile, both termini, two residue mods, two adjacent intervals -/
